@@ -32,13 +32,13 @@ theorem accept_sound (S : DRing K) (d : Nat) (lg : Bool) (args : List E) (e : E)
   constructor
   · unfold additive at ha
     simp only [substEval] at ha
-    cases h1 : reeval d (subst (args.zip (sumVals args)) e) with
+    cases h1 : reeval2 d (subst (args.zip (sumVals args)) e) with
     | error x => simp [sumVals] at h1; simp [h1] at ha
     | ok n =>
-      cases h2 : reeval d (subst (args.zip (freshList "l#" args)) e) with
+      cases h2 : reeval2 d (subst (args.zip (freshList "l#" args)) e) with
       | error x => simp [sumVals] at h1; simp [h1, h2] at ha
       | ok l =>
-        cases h3 : reeval d (subst (args.zip (freshList "r#" args)) e) with
+        cases h3 : reeval2 d (subst (args.zip (freshList "r#" args)) e) with
         | error x => simp [sumVals] at h1; simp [h1, h2, h3] at ha
         | ok r =>
           have h1' := h1
@@ -51,10 +51,10 @@ theorem accept_sound (S : DRing K) (d : Nat) (lg : Bool) (args : List E) (e : E)
           simp [denG, denGSum, hs _ l h2, hs _ r h3]
   · unfold homogeneous at hh
     simp only [substEval] at hh
-    cases h1 : reeval d (subst (args.zip (mulVals args)) e) with
+    cases h1 : reeval2 d (subst (args.zip (mulVals args)) e) with
     | error x => simp [mulVals] at h1; simp [h1] at hh
     | ok n =>
-      cases h2 : reeval d (subst (args.zip (freshList "l#" args)) e) with
+      cases h2 : reeval2 d (subst (args.zip (freshList "l#" args)) e) with
       | error x => simp [mulVals] at h1; simp [h1, h2] at hh
       | ok l =>
         have h1' := h1
@@ -83,10 +83,10 @@ theorem accept_sound_opfree (S : DRing K) (d : Nat) (lg : Bool) (args : List E) 
     have s2 := (reevalSound_opfree S d lg args (freshList "l#" args) e hargs (freshList_opfree _ args hargs) he).1
     unfold homogeneous at hh
     simp only [substEval] at hh
-    cases h1 : reeval d (subst (args.zip (mulVals args)) e) with
+    cases h1 : reeval2 d (subst (args.zip (mulVals args)) e) with
     | error x => simp [mulVals] at h1; simp [h1] at hh
     | ok n =>
-      cases h2 : reeval d (subst (args.zip (freshList "l#" args)) e) with
+      cases h2 : reeval2 d (subst (args.zip (freshList "l#" args)) e) with
       | error x => simp [mulVals] at h1; simp [h1, h2] at hh
       | ok l =>
         have h1' := h1
@@ -103,13 +103,13 @@ theorem accept_sound_opfree (S : DRing K) (d : Nat) (lg : Bool) (args : List E) 
   have s3 := (reevalSound_opfree S d lg args (freshList "r#" args) e hargs (freshList_opfree _ args hargs) he).1
   unfold additive at ha
   simp only [substEval] at ha
-  cases h1 : reeval d (subst (args.zip (sumVals args)) e) with
+  cases h1 : reeval2 d (subst (args.zip (sumVals args)) e) with
   | error x => simp [sumVals] at h1; simp [h1] at ha
   | ok n =>
-    cases h2 : reeval d (subst (args.zip (freshList "l#" args)) e) with
+    cases h2 : reeval2 d (subst (args.zip (freshList "l#" args)) e) with
     | error x => simp [sumVals] at h1; simp [h1, h2] at ha
     | ok l =>
-      cases h3 : reeval d (subst (args.zip (freshList "r#" args)) e) with
+      cases h3 : reeval2 d (subst (args.zip (freshList "r#" args)) e) with
       | error x => simp [sumVals] at h1; simp [h1, h2, h3] at ha
       | ok r =>
         have h1' := h1
